@@ -119,6 +119,7 @@ def make_call(rng, entry, pattern, str_dtype=False):
         else:
             m = rng.choice(['JACCARD', 'COSINE', 'DICE', 'OVERLAP'])
             f = {'kind': kind, 'measure': m, 'allow_empty': rng.random() < 0.5,
+                 'measure_spelling': gen.spell(rng, m),
                  'threshold': rng.choice([1, 2]) if m == 'OVERLAP' else gen.random_threshold(rng)}
         call['filter'] = f
         if entry.startswith('ft:'):
